@@ -44,6 +44,14 @@ func msgTypeFor(url string) protoreflect.MessageType {
 	return mt
 }
 
+// innerTypeFor: the message held in the value of a KeyData (the key) or of a KeyTemplate (the key FORMAT).
+func innerTypeFor(holder protoreflect.MessageDescriptor, url string) protoreflect.MessageType {
+	if holder.Name() == "KeyTemplate" {
+		return msgTypeFor(url + "Format")
+	}
+	return msgTypeFor(url)
+}
+
 // field ops --------------------------------------------------------------------------------------
 
 func editBytes(old []byte, sib []byte, e edit, r *rand.Rand) []byte {
@@ -113,7 +121,7 @@ func applyAt(m, sib protoreflect.Message, path string, e edit, r *rand.Rand) {
 		if urlFd == nil {
 			vt.Fatal("path %q: no type_url next to %q", e.Path, left)
 		}
-		mt := msgTypeFor(pm.Get(urlFd).String())
+		mt := innerTypeFor(pm.Descriptor(), pm.Get(urlFd).String())
 		if mt == nil {
 			vt.Fatal("path %q: unknown inner type %q", e.Path, pm.Get(urlFd).String())
 		}
@@ -291,7 +299,7 @@ func observeMsg(m protoreflect.Message, prefix string, obs map[string]any, depth
 			if (mn == "KeyData" || mn == "KeyTemplate") && depth < 3 {
 				in := v.Message()
 				url := in.Get(in.Descriptor().Fields().ByName("type_url")).String()
-				if mt := msgTypeFor(url); mt != nil {
+				if mt := innerTypeFor(fd.Message(), url); mt != nil {
 					im := mt.New()
 					if proto.Unmarshal(in.Get(in.Descriptor().Fields().ByName("value")).Bytes(), im.Interface()) == nil {
 						observeMsg(im, p+".value>", obs, depth+1)
